@@ -33,3 +33,136 @@ package eval
 //@   ensures  badrange:: implies(operator == token.COLON && rightVal < leftVal, isErr(result))
 //@   ensures  unknown:: implies(operator != token.PLUS && operator != token.MINUS && operator != token.ASTERISK && operator != token.SLASH && operator != token.PERCENT && operator != token.LEFTSHIFT && operator != token.RIGHTSHIFT && operator != token.BITAND && operator != token.BITOR && operator != token.BITXOR && operator != token.COLON, isErr(result))
 //@   property C01 C07
+
+//@ define isFloat(o) = isType(o, object.Float)
+//@ define isReg(o) = isType(o, *object.Register)
+//@ define floatVal(o) = o.(object.Float).Value
+//@ define numFloat(o) = ite(isInt(o), float64(intVal(o)), floatVal(o))
+//@ define numeric(o) = isInt(o) || isFloat(o)
+//@ define boolsOK() = object.TRUE.Value && !object.FALSE.Value
+
+//@ func Int64Value
+//@   arith bv
+//@   nosafety
+//@   pure
+//@   ensures  int:: implies(isInt(o), result1 && result0 == intVal(o))
+//@   ensures  other:: implies(!isInt(o) && !isReg(o), !result1)
+//@   property C01
+
+//@ func GetFloatValue
+//@   arith bv
+//@   nosafety
+//@   pure
+//@   ensures  int:: implies(isInt(o), result1 == nil && same(result0, float64(intVal(o))))
+//@   ensures  float:: implies(isFloat(o), result1 == nil && same(result0, floatVal(o)))
+//@   ensures  other:: implies(!isInt(o) && !isFloat(o) && !isReg(o), result1 != nil)
+//@   property C01
+
+//@ func (*State).evalFloatInfixExpression
+//@   arith bv
+//@   nosafety
+//@   modifies *
+//@   ensures  plus:: implies(operator == token.PLUS && numeric(left) && numeric(right), isFloat(result) && same(floatVal(result), numFloat(left) + numFloat(right)))
+//@   ensures  minus:: implies(operator == token.MINUS && numeric(left) && numeric(right), isFloat(result) && same(floatVal(result), numFloat(left) - numFloat(right)))
+//@   ensures  times:: implies(operator == token.ASTERISK && numeric(left) && numeric(right), isFloat(result) && same(floatVal(result), numFloat(left) * numFloat(right)))
+//@   ensures  quo:: implies(operator == token.SLASH && numeric(left) && numeric(right), isFloat(result) && same(floatVal(result), numFloat(left) / numFloat(right)))
+//@   ensures  nonnumeric:: implies(!numeric(left) && !isReg(left) || !numeric(right) && !isReg(right), isErr(result))
+//@   ensures  unknown:: implies(operator != token.PLUS && operator != token.MINUS && operator != token.ASTERISK && operator != token.SLASH && operator != token.PERCENT, isErr(result))
+//@   property C01
+
+//@ func (*State).evalMinusPrefixOperatorExpression
+//@   arith bv
+//@   nosafety
+//@   modifies *
+//@   ensures  int:: implies(isInt(right), isInt(result) && intVal(result) == -intVal(right))
+//@   ensures  float:: implies(isFloat(right), isFloat(result) && same(floatVal(result), -floatVal(right)))
+//@   ensures  other:: implies(!isInt(right) && !isFloat(right) && !isReg(right), isErr(result))
+//@   property C01
+
+//@ func (*State).evalBangOperatorExpression
+//@   nosafety
+//@   modifies *
+//@   requires boolsOK()
+//@   ensures  true:: implies(isType(right, object.Boolean) && right.(object.Boolean).Value, isType(result, object.Boolean) && !result.(object.Boolean).Value)
+//@   ensures  false:: implies(isType(right, object.Boolean) && !right.(object.Boolean).Value, isType(result, object.Boolean) && result.(object.Boolean).Value)
+//@   ensures  nil:: implies(isType(right, object.Null), isType(result, object.Boolean) && result.(object.Boolean).Value)
+//@   ensures  other:: implies(!isType(right, object.Boolean) && !isType(right, object.Null), isErr(result))
+//@   property C01
+
+//@ func (*State).evalPrefixExpression
+//@   arith bv
+//@   nosafety
+//@   modifies *
+//@   requires boolsOK()
+//@   ensures  plus:: implies(operator == token.PLUS || operator == token.BLOCKCOMMENT, result == right)
+//@   ensures  bitnot:: implies((operator == token.BITNOT || operator == token.BITXOR) && isInt(right), isInt(result) && intVal(result) == -intVal(right) - 1)
+//@   ensures  bitnoterr:: implies((operator == token.BITNOT || operator == token.BITXOR) && !isInt(right) && !isReg(right), isErr(result))
+//@   ensures  minus:: implies(operator == token.MINUS && isInt(right), isInt(result) && intVal(result) == -intVal(right))
+//@   ensures  bang:: implies(operator == token.BANG && isType(right, object.Boolean), isType(result, object.Boolean) && result.(object.Boolean).Value == !right.(object.Boolean).Value)
+//@   ensures  unknown:: implies(operator != token.PLUS && operator != token.BLOCKCOMMENT && operator != token.BITNOT && operator != token.BITXOR && operator != token.MINUS && operator != token.BANG, isErr(result))
+//@   property C01
+
+//@ define isBool(o) = isType(o, object.Boolean)
+//@ define boolVal(o) = o.(object.Boolean).Value
+//@ define isTrue(o) = isBool(o) && boolVal(o)
+
+//@ func (*State).evalInfixExpression
+//@   arith bv
+//@   nosafety
+//@   modifies *
+//@   maypanic *
+//@   requires s != nil && boolsOK() && left != nil && right != nil
+//@   ensures  eq:: implies(operator == token.EQ, isBool(result) && boolVal(result) == object.Equals(left, right))
+//@   ensures  noteq:: implies(operator == token.NOTEQ, isBool(result) && boolVal(result) == !object.Equals(left, right))
+//@   ensures  gt:: implies(operator == token.GT, isBool(result) && boolVal(result) == (object.Cmp(left, right) == 1))
+//@   ensures  lt:: implies(operator == token.LT, isBool(result) && boolVal(result) == (object.Cmp(left, right) == -1))
+//@   ensures  gteq:: implies(operator == token.GTEQ, isBool(result) && boolVal(result) == (object.Cmp(left, right) >= 0))
+//@   ensures  lteq:: implies(operator == token.LTEQ, isBool(result) && boolVal(result) == (object.Cmp(left, right) <= 0))
+//@   ensures  and:: implies(operator == token.AND, isBool(result) && boolVal(result) == (isTrue(left) && isTrue(right)))
+//@   ensures  or:: implies(operator == token.OR, isBool(result) && boolVal(result) == (isTrue(left) || isTrue(right)))
+//@   ensures  intplus:: implies(operator == token.PLUS && isInt(left) && isInt(right), isInt(result) && intVal(result) == intVal(left) + intVal(right))
+//@   ensures  intminus:: implies(operator == token.MINUS && isInt(left) && isInt(right), isInt(result) && intVal(result) == intVal(left) - intVal(right))
+//@   ensures  inttimes:: implies(operator == token.ASTERISK && isInt(left) && isInt(right), isInt(result) && intVal(result) == intVal(left) * intVal(right))
+//@   ensures  intquo:: implies(operator == token.SLASH && isInt(left) && isInt(right) && intVal(right) != 0, isInt(result) && intVal(result) == intVal(left) / intVal(right))
+//@   ensures  intdivzero:: implies((operator == token.SLASH || operator == token.PERCENT) && isInt(left) && isInt(right) && intVal(right) == 0, isErr(result))
+//@   ensures  mixedplus:: implies(operator == token.PLUS && numeric(left) && numeric(right) && (isFloat(left) || isFloat(right)), isFloat(result) && same(floatVal(result), numFloat(left) + numFloat(right)))
+//@   ensures  mixedquo:: implies(operator == token.SLASH && numeric(left) && numeric(right) && (isFloat(left) || isFloat(right)), isFloat(result) && same(floatVal(result), numFloat(left) / numFloat(right)))
+//@   ensures  boolarith:: implies((operator == token.PLUS || operator == token.MINUS) && isBool(left), isErr(result))
+//@   property C01 C12
+
+//@ define isStr(o) = isType(o, object.String)
+//@ define strVal(o) = o.(object.String).Value
+//@ define isNull(o) = isType(o, object.Null)
+//@ define normIdx(i, n) = ite(i < 0, i + n, i)
+
+//@ func evalArrayIndexExpression
+//@   requires object.plain(array) && object.isArr(array) && object.wfArr(array)
+//@   modifies *
+//@   ensures  inrange:: implies(0 <= normIdx(idx, object.seqLen(array)) && normIdx(idx, object.seqLen(array)) < object.seqLen(array), result == object.seqAt(array, normIdx(idx, object.seqLen(array))))
+//@   ensures  outofrange:: implies(normIdx(idx, object.seqLen(array)) < 0 || normIdx(idx, object.seqLen(array)) >= object.seqLen(array), isNull(result))
+//@   property C01 C07
+
+//@ func (*State).evalIndexExpressionIdx
+//@   requires s != nil && object.wfObj(left) && index != nil
+//@   modifies *
+//@   maypanic *
+//@   ensures  strin:: implies(isStr(left) && isInt(index) && 0 <= normIdx(intVal(index), len(strVal(left))) && normIdx(intVal(index), len(strVal(left))) < len(strVal(left)), isInt(result) && intVal(result) == strVal(left)[normIdx(intVal(index), len(strVal(left)))])
+//@   ensures  strout:: implies(isStr(left) && isInt(index) && (normIdx(intVal(index), len(strVal(left))) < 0 || normIdx(intVal(index), len(strVal(left))) >= len(strVal(left))), isNull(result))
+//@   ensures  arrin:: implies(object.isArr(left) && isInt(index) && 0 <= normIdx(intVal(index), object.seqLen(left)) && normIdx(intVal(index), object.seqLen(left)) < object.seqLen(left), result == object.seqAt(left, normIdx(intVal(index), object.seqLen(left))))
+//@   ensures  nil:: implies(isNull(left), isNull(result))
+//@   property C01 C07
+
+// Eval returns an object for every node (never a nil interface): assumed here, see the C07 sweep.
+//@ func (*State).Eval assumed
+//@   modifies *
+//@   ensures  result != nil
+
+//@ func (*State).evalIndexRangeExpression
+//@   requires s != nil && object.plain(left) && object.wfArr(left)
+//@   modifies *
+//@   maypanic *
+//@   witness li = callresult after Eval#1
+//@   witness ri = callresult after Eval#2
+//@   ensures  strslice:: implies(isStr(left) && isInt(li) && rightIdx != nil && isInt(ri) && 0 <= intVal(li) && intVal(li) <= intVal(ri) && intVal(ri) <= len(strVal(left)), isStr(result) && strVal(result) == strVal(left)[intVal(li):intVal(ri)])
+//@   ensures  notint:: implies(!isInt(li) && !isReg(li), isErr(result))
+//@   property C01 C07
